@@ -48,6 +48,7 @@ def run(ctx):
         data_indices(F, res)
         locals_parse(F, res)
         locals_emit(F, res)
+        local_lookup(F, res)
     except (EvalError, KeyError) as e:
         res.error('not analysable: %s' % e)
     return res
@@ -175,6 +176,15 @@ def data_indices(F, res):
     for w in ws:
         sd = [e for e in w.trace if e['kind'] == 'call' and e['callee'].endswith('set_data_index')]
         if not sd:
+            # index assignment may be skipped only when there are no segments at all: whether a DataCount section is
+            # needed must not decide whether data segments get their index (the name section and custom sections look
+            # indices up regardless)
+            at = {show(k[1]): v for k, v in w.assumptions if isinstance(k, tuple) and k and k[0] == 'atom'}
+            empty = any(v is True and re.search(r'len\(self\.arena\) Eq 0|is_empty\(self', k) for k, v in at.items())
+            if w.outcome == 'return' and not empty:
+                res.bad('emit/data-indices/conditional', 'emit_data_count returns without assigning data indices although the module '
+                        'has data segments (when %s): later index lookups (name section, custom sections) find nothing'
+                        % sorted(at.items())[:3])
             continue
         ups = {e['callee']: e for e in w.trace if e['kind'] == 'loop_update'}
         a = sd[0]['args']
@@ -224,6 +234,45 @@ def locals_parse(F, res):
         res.ok('parse/locals', {'parser': 'parse_local_functions', 'rule': 'locals.add -> push_local(function id, that local), params first'})
     else:
         res.error('parse_local_functions: no world creating locals')
+
+
+def local_lookup(F, res):
+    """IndicesToIds::get_local(function, index) answers from that function's own list, bounded by that list: an index
+    past a function's locals is an error, it never reaches another function's locals"""
+    from heval import local_policy
+    p = 'parse::IndicesToIds::get_local'
+    if p not in F.hir:
+        res.error('anchor lost: IndicesToIds::get_local')
+        return
+    ws = Evaluator(F, local_policy(F, p, events=[r'^std::'], split_try='all')).run_fn(p, [sym('self'), sym('function'), sym('index')])
+    good = None
+    why = None
+    for w in ws:
+        v = w.value
+        if w.outcome != 'return' or not (isinstance(v, tuple) and v and v[0] == 'ctor' and v[2] == 'Ok'):
+            continue
+        x = cfield(v, '0')
+        while x[0] == 'ok':
+            x = x[1]
+        # x = <per-function container>.get(index) / container[index]
+        okk = x[0] == 'call' and x[1].split('::')[-1] in ('get', 'index') and len(x[2]) == 2
+        if okk:
+            cont, idx = x[2]
+            while cont[0] == 'ok':
+                cont = cont[1]
+            while idx[0] == 'cast':
+                idx = idx[1]
+            per_fn = cont[0] == 'call' and cont[1].split('::')[-1] in ('get', 'index') and len(cont[2]) == 2 \
+                and show(cont[2][0]).startswith('self.') and cont[2][1] == sym('function')
+            okk = per_fn and idx == sym('index')
+        if not okk:
+            why = show(x)[:120]
+        good = okk if good is None else (good and okk)
+    if good:
+        res.ok('parse/local-lookup', {'get_local': 'locals[function][index], both lookups bounded'})
+    else:
+        res.bad('parse/local-lookup', 'IndicesToIds::get_local must answer from the list of that function at that index (got %s): '
+                'an out-of-range local index would otherwise name a local of another function' % (why or 'no successful path'))
 
 
 def locals_emit(F, res):
